@@ -22,15 +22,17 @@ pub assume_specification[f64::from_le_bytes](b: [u8; 8]) -> (r: f64) ensures le6
 pub assume_specification[f32::to_le_bytes](x: f32) -> (r: [u8; 4]) ensures r@ == le32(f32_bits(x));
 pub assume_specification[f64::to_le_bytes](x: f64) -> (r: [u8; 8]) ensures r@ == le64(f64_bits(x));
 
+/// A5: f32 -> f64 widening (`f64::from`), uninterpreted (no floating-point arithmetic is reasoned about)
+pub uninterp spec fn f32_widen(x: f32) -> f64;
+pub assume_specification[<f64 as From<f32>>::from](x: f32) -> (r: f64) ensures r == f32_widen(x);
+
 /// A8: UTF-8 view of a String
 pub uninterp spec fn str_bytes(s: String) -> Seq<u8>;
 pub uninterp spec fn is_utf8(b: Seq<u8>) -> bool;
 pub assume_specification[String::len](s: &String) -> (r: usize) ensures r == str_bytes(*s).len();
 pub assume_specification[String::into_bytes](s: String) -> (r: Vec<u8>) ensures r@ == str_bytes(s);
-#[verifier::external_body]
-pub fn string_from_utf8(buf: Vec<u8>) -> (r: Result<String, Utf8Error>)
-    ensures match r { Ok(s) => str_bytes(s) == buf@ && is_utf8(buf@), Err(_) => !is_utf8(buf@) }
-{ unimplemented!() }
+pub assume_specification[String::from_utf8](buf: Vec<u8>) -> (r: Result<String, std::string::FromUtf8Error>)
+    ensures match r { Ok(s) => str_bytes(s) == buf@ && is_utf8(buf@), Err(_) => !is_utf8(buf@) };
 
 /// duration payload = 12 bytes (contract of `From<[u8;12]> for Duration`, proved in unit U6)
 pub uninterp spec fn dur_bytes(d: Duration) -> Seq<u8>;
